@@ -926,14 +926,33 @@ func runMap(data json.RawMessage) vh.Verdict {
 		if len(c.Fail) > 0 {
 			return vh.Fail("harness-case", "lambda-pure cannot fail")
 		}
+	case "lambda-outer":
+		// the function refers to a variable of an ENCLOSING lambda (and cannot be eta-reduced into a partial call):
+		// the forked VMs need the argument slots that were in scope when map-parallel was called
+		f = "{x -> verif-f (add-ints k x)}"
+	case "lambda-lazy":
+		// the function returns a LAZY collection, read by the caller after the parallel run has ended
+		f = "{x -> map (collection (pair 1 x)) {y -> verif-f y}}"
+		if len(c.Fail) > 0 {
+			return vh.Fail("harness-case", "lambda-lazy: the failure would only show when the inner collection is read")
+		}
 	default:
 		return vh.Fail("harness-case", "unknown fn %q", c.Fn)
 	}
 	obs := mapObs{Yielded: []int{}}
 	var wrong string
+	type lazyValue struct {
+		k     int
+		inner b6.UntypedCollection
+	}
+	var lazy []lazyValue
 	run := func(op string) func() error {
 		return func() error {
-			r, err := api.EvaluateString(op+" (verif-input) "+f, ctx)
+			text := op + " (verif-input) " + f
+			if c.Fn == "lambda-outer" {
+				text = "call {k -> " + text + "} 0"
+			}
+			r, err := api.EvaluateString(text, ctx)
 			if err != nil {
 				return fmt.Errorf("evaluate: %w", err)
 			}
@@ -954,6 +973,16 @@ func runMap(data json.RawMessage) vh.Verdict {
 				}
 				key, kok := i.Key().(int)
 				k := key - 100
+				if c.Fn == "lambda-lazy" {
+					if inner, ok := i.Value().(b6.UntypedCollection); ok && kok {
+						lazy = append(lazy, lazyValue{k, inner})
+					} else if wrong == "" {
+						wrong = fmt.Sprintf("position %d: key %v value %T is not a collection", len(obs.Yielded)+1, i.Key(), i.Value())
+					}
+					obs.Yielded = append(obs.Yielded, k)
+					apply(p.draw())
+					continue
+				}
 				// `add` yields the language's number type: compare the printed value
 				if !kok || fmt.Sprint(i.Value()) != strconv.Itoa(mapResult(k, c.Fn)) {
 					if wrong == "" {
@@ -999,6 +1028,21 @@ func runMap(data json.RawMessage) vh.Verdict {
 		}
 	default:
 		obs.Res = "nil"
+	}
+	// lazy values are read now, after the parallel run has ended, as a caller that collects the results first does
+	if c.Fn == "lambda-lazy" && wrong == "" {
+		for _, lv := range lazy {
+			it := lv.inner.BeginUntyped()
+			ok, err := it.Next()
+			if err != nil || !ok {
+				wrong = fmt.Sprintf("the lazy value yielded for item %d cannot be read after the run: ok=%v err=%v (map's value reads as %d)", lv.k, ok, err, mapResult(lv.k, "lambda"))
+				break
+			}
+			if fmt.Sprint(it.Value()) != strconv.Itoa(mapResult(lv.k, "lambda")) {
+				wrong = fmt.Sprintf("the lazy value yielded for item %d reads as %v, map's as %d", lv.k, it.Value(), mapResult(lv.k, "lambda"))
+				break
+			}
+		}
 	}
 	// ---- the property itself ----
 	if wrong != "" {
